@@ -24,7 +24,14 @@ def handle (s : Sexp) : String :=
     let o : List (List Nat) := outer.items.map Sexp.natList
     let sf := self.filterMap parseMSym
     let inn := inner.map fun t => t.items.filterMap parseMSym
-    showMSyms (mergeScopes freshName o sf inn)
+    showMSyms (mergeScopes freshName C16.lower o [] sf inn)
+  -- `(mergecb (outer…) (cbSelf…) ((id name kind (cb…))…) (((id name kind (cb…))…)…))`
+  | .list [.atom "mergecb", outer, cbs, .list self, .list inner] =>
+    let o : List (List Nat) := outer.items.map Sexp.natList
+    let cb : List (List Nat) := cbs.items.map Sexp.natList
+    let sf := self.filterMap parseMSym
+    let inn := inner.map fun t => t.items.filterMap parseMSym
+    showMSyms (mergeScopes freshName C16.lower o cb sf inn)
   | _ => "bad-command"
 
 def main : IO _root_.Unit := run handle
